@@ -240,10 +240,10 @@ private:
         for (const CharT* it = begin; it != end; ++it)
         {
             CharT c = *it;
-            if (c == quote_char)
+            if (c == quote_char || c == quote_escape_char)
             {
                 sink.push_back(quote_escape_char); 
-                sink.push_back(quote_char);
+                sink.push_back(c);
             }
             else
             {
